@@ -19,6 +19,8 @@ func check(prop string, h *History) []string {
 		return h.CheckC05()
 	case "C11":
 		return h.CheckC11()
+	case "C07":
+		return h.CheckC07()
 	}
 	panic("unknown property " + prop)
 }
